@@ -78,6 +78,9 @@ def run_points(ctx, prog, rule, label, path, pty, points, spec, gargs=None, key_
     I = Interp(prog, max_steps=200000)
     n = 0
     for pt in points:
+        if getattr(ctx, 'over_budget', None) and ctx.over_budget():
+            ctx.count('probe_points_not_decided_soft_budget')
+            continue
         args = mkargs(pt) if mkargs else [posit_arg(pty, x, x, i) for i, x in enumerate(pt)]
         try:
             out = I.run(path, args, gargs or {})
